@@ -14,6 +14,7 @@ import Rsp.Model.Crypt
 import Rsp.Model.Choose
 import Rsp.Model.Ttl
 import Rsp.Model.Addr
+import Rsp.Model.Realm
 namespace Rsp.World
 open Rsp Rsp.Radmsg Rsp.Rewrite
 
@@ -441,7 +442,22 @@ def sendrq (w : World) (o : Nat) : World :=
 
 /-- `id2realm(realms, id)` without sub-realms: index of the first realm whose regex matches -/
 def id2realm (w : World) (id : Bytes) : Option Nat :=
-  w.realms.findIdx? fun r => (w.rx r.pattern id).isSome
+  w.realms.findIdx? fun r => Realm.rxEval w.rx r.pattern id
+
+/-- which of a realm's server lists a request uses -/
+def realmServers (r : Realm) (code : UInt8) : Option (List Nat) := if code = 4 then r.acc else r.srv
+
+inductive NoServer
+  | reject (msg : Bytes)      -- Access-Reject carrying the realm's ReplyMessage
+  | acctResponse              -- Accounting-Response
+  | ignore
+deriving DecidableEq, Repr
+
+/-- what radsrv does when the matching realm yields no server -/
+def noServerOutcome (r : Realm) (code : UInt8) : NoServer :=
+  if r.msg.isSome ∧ code = 1 then .reject (r.msg.getD [])
+  else if r.accresp ∧ code = 4 then .acctResponse
+  else .ignore
 
 def chooseEntry (w : World) (si : Nat) : Choose.Entry :=
   match getSrv w si with | some s => some (s.state, s.lost) | none => none
@@ -520,16 +536,15 @@ def radsrvCore (w : World) (o ci : Nat) (cc : CliConf) (m0 : Msg) : World :=
                       | none => exit w
                       | some ri =>
                         let realm := w.realms.getD ri { pattern := [] }
-                        let acc := m0.code = 4
-                        let (w, to) := match (if acc then realm.acc else realm.srv) with
+                        let (w, to) := match realmServers realm m0.code with
                           | some l => choosesrv w l
                           | none => (w, none)
                         match to with
                         | none =>
-                          if realm.msg.isSome ∧ m0.code = 1 then
-                            exit (respond w o 3 (some { t := 18, v := realm.msg.getD [] }) true)
-                          else if realm.accresp ∧ m0.code = 4 then exit (respond w o 5 none false)
-                          else exit w
+                          (match noServerOutcome realm m0.code with
+                           | .reject msg => exit (respond w o 3 (some { t := 18, v := msg }) true)
+                           | .acctResponse => exit (respond w o 5 none false)
+                           | .ignore => exit w)
                         | some si =>
                           let s := (getSrv w si).getD { conf := { name := [], type := 0, secret := [], retryCount := 0, retryInterval := 0 }, ss := 0 }
                           if loopPrevents w.opts cc s.conf then exit w
